@@ -158,8 +158,11 @@ func (n *native) run(pkgPath, harness, valuesFile string) (*nativeRun, error) {
 			}
 		case ln == "ZZV-ASSUME-FAIL":
 			r.assumeFail = true
-		case strings.HasPrefix(ln, "ZZV-PANIC "):
-			r.panicMsg = strings.TrimPrefix(ln, "ZZV-PANIC ")
+		case strings.HasPrefix(ln, "ZZV-PANIC"):
+			r.panicMsg = strings.TrimSpace(strings.TrimPrefix(ln, "ZZV-PANIC"))
+			if r.panicMsg == "" {
+				r.panicMsg = "panic with an empty message (pterm Fatal printer)"
+			}
 		case strings.HasPrefix(ln, "panic:") && r.panicMsg == "":
 			r.panicMsg = ln
 		}
